@@ -350,7 +350,7 @@ func runC10(c *mon.Ctx) {
 		}
 		sp, _, _ := SPFor(r, w, lc.Signer)
 		if k%2 == 1 {
-			sp, _, _ = pool.Get(w.Now, lc.Signer)
+			sp, _, _ = pool.SPSource(k, w.Now, lc.Signer)
 		}
 		sp.SkipSignatureValidation = skip
 		sp.IdentityProviderIssuer = cfgIssuer
